@@ -286,6 +286,7 @@ PROPS["C15"] = {
         pbt("sweeps", "pbt_C15", mode="enum", quick={}, thorough={"timeout": 7200}),
         pbt("generated_frames", "pbt_C15", quick={"cases": 12000, "size": 100, "shards": 8},
             thorough={"cases": 300000, "size": 200, "shards": 16}),
+        cgf("coverage_guided", "pbt_C15", quick={"runs": 20000, "workers": 8}, thorough={"runs": 120000, "workers": 16}),
     ],
 }
 
